@@ -152,91 +152,119 @@ pub struct GenStats {
     pub rejected_by_reference: u64,
 }
 
+fn mix_total(mix: &FrameMix) -> u64 {
+    mix.keepalive + mix.tiny_other + mix.ver + mix.known + mix.unknown_type + mix.random_body + mix.big
+}
+
+/// One inbound frame, whatever the reference call makes of it.
+pub fn gen_frame_raw(rng: &mut Rng, mode: SizeMode, mix: &FrameMix) -> Vec<u8> {
+    let total = mix_total(mix);
+    let mut x = rng.below(total.max(1));
+    let mut pick = |w: u64| {
+        if x < w {
+            true
+        } else {
+            x -= w;
+            false
+        }
+    };
+    let c = corpus(mode);
+    let f: Vec<u8> = if pick(mix.keepalive) {
+        keepalive(mode)
+    } else if pick(mix.tiny_other) {
+        let reqi = match rng.below(4) {
+            0 => 0,
+            1 => 1,
+            2 => 255,
+            _ => rng.byte(),
+        };
+        let subt = if rng.chance(1, 8) {
+            rng.byte()
+        } else {
+            rng.below(30) as u8
+        };
+        tiny(mode, reqi, subt)
+    } else if pick(mix.ver) {
+        let v = if mix.ver_mostly_9 && rng.chance(2, 3) {
+            9
+        } else {
+            *rng.pick(&[0u8, 1, 8, 9, 10, 255, 7, 90])
+        };
+        let reqi = rng.byte();
+        ver_frame(mode, reqi, v, rng)
+    } else if pick(mix.known) {
+        let (t, sizes) = rng.pick(&c.ok_sizes);
+        let n = if rng.chance(3, 4) {
+            sizes[0]
+        } else {
+            *rng.pick(sizes)
+        };
+        let mut f = fill_body(rng, n);
+        f[0] = mode.size_byte(n);
+        f[1] = *t;
+        f
+    } else if pick(mix.unknown_type) {
+        if c.unknown_types.is_empty() {
+            return keepalive(mode);
+        }
+        let t = *rng.pick(&c.unknown_types);
+        let n = rand_len(rng, mode, 64);
+        let mut f = rng.bytes(n);
+        f[0] = mode.size_byte(n);
+        f[1] = t;
+        f
+    } else if pick(mix.random_body) {
+        let (t, sizes) = rng.pick(&c.ok_sizes);
+        let n = sizes[0];
+        let mut f = rng.bytes(n);
+        f[0] = mode.size_byte(n);
+        f[1] = *t;
+        f
+    } else {
+        // big frames: the largest sizes a type accepts, or maximum-length frames
+        let (t, sizes) = rng.pick(&c.ok_sizes);
+        let n = if rng.chance(1, 2) {
+            *sizes.last().unwrap()
+        } else {
+            mode.max_len() - (mode.max_len() % 4)
+        };
+        let n = n.min(mode.max_len());
+        let mut f = fill_body(rng, n);
+        f[0] = mode.size_byte(n);
+        f[1] = *t;
+        f
+    };
+    // Non-canonical lengths: a frame may announce more than its packet needs (IS_NLP pads to
+    // a multiple of 4; relays and newer LFS versions append fields) or, where the length byte
+    // counts single bytes, stop short of a trailing spare byte. Whether such a frame is a
+    // packet is the reference call's business, as for every other frame.
+    let mut f = f;
+    if f.len() >= 4 && f.len() <= 24 && matches!(f[1], 2 | 3) && rng.chance(1, 10) {
+        let n = f.len();
+        let m = match mode {
+            SizeMode::Compressed => n + 4 * rng.usize(1, 3),
+            SizeMode::Uncompressed => {
+                if n > 4 && rng.chance(1, 4) {
+                    n - 1
+                } else {
+                    n + rng.usize(1, 9)
+                }
+            },
+        };
+        let nonzero_pad = rng.chance(1, 2);
+        while f.len() < m {
+            f.push(if nonzero_pad { *rng.pick(&[9u8, 1, 3, 255, 8]) } else { 0 });
+        }
+        f.truncate(m);
+        f[0] = mode.size_byte(m);
+    }
+    f
+}
+
 /// One inbound frame whose reference decode neither panics nor is odd.
 pub fn gen_frame(rng: &mut Rng, mode: SizeMode, mix: &FrameMix, stats: &mut GenStats) -> Vec<u8> {
-    let total = mix.keepalive
-        + mix.tiny_other
-        + mix.ver
-        + mix.known
-        + mix.unknown_type
-        + mix.random_body
-        + mix.big;
     for _attempt in 0..64 {
-        let mut x = rng.below(total.max(1));
-        let mut pick = |w: u64| {
-            if x < w {
-                true
-            } else {
-                x -= w;
-                false
-            }
-        };
-        let c = corpus(mode);
-        let f: Vec<u8> = if pick(mix.keepalive) {
-            keepalive(mode)
-        } else if pick(mix.tiny_other) {
-            let reqi = match rng.below(4) {
-                0 => 0,
-                1 => 1,
-                2 => 255,
-                _ => rng.byte(),
-            };
-            let subt = if rng.chance(1, 8) {
-                rng.byte()
-            } else {
-                rng.below(30) as u8
-            };
-            tiny(mode, reqi, subt)
-        } else if pick(mix.ver) {
-            let v = if mix.ver_mostly_9 && rng.chance(2, 3) {
-                9
-            } else {
-                *rng.pick(&[0u8, 1, 8, 9, 10, 255, 7, 90])
-            };
-            let reqi = rng.byte();
-            ver_frame(mode, reqi, v, rng)
-        } else if pick(mix.known) {
-            let (t, sizes) = rng.pick(&c.ok_sizes);
-            let n = if rng.chance(3, 4) {
-                sizes[0]
-            } else {
-                *rng.pick(sizes)
-            };
-            let mut f = fill_body(rng, n);
-            f[0] = mode.size_byte(n);
-            f[1] = *t;
-            f
-        } else if pick(mix.unknown_type) {
-            if c.unknown_types.is_empty() {
-                continue;
-            }
-            let t = *rng.pick(&c.unknown_types);
-            let n = rand_len(rng, mode, 64);
-            let mut f = rng.bytes(n);
-            f[0] = mode.size_byte(n);
-            f[1] = t;
-            f
-        } else if pick(mix.random_body) {
-            let (t, sizes) = rng.pick(&c.ok_sizes);
-            let n = sizes[0];
-            let mut f = rng.bytes(n);
-            f[0] = mode.size_byte(n);
-            f[1] = *t;
-            f
-        } else {
-            // big frames: the largest sizes a type accepts, or maximum-length frames
-            let (t, sizes) = rng.pick(&c.ok_sizes);
-            let n = if rng.chance(1, 2) {
-                *sizes.last().unwrap()
-            } else {
-                mode.max_len() - (mode.max_len() % 4)
-            };
-            let n = n.min(mode.max_len());
-            let mut f = fill_body(rng, n);
-            f[0] = mode.size_byte(n);
-            f[1] = *t;
-            f
-        };
+        let f = gen_frame_raw(rng, mode, mix);
         match ref_decode(mode, &f) {
             // "Odd" (the reference call answered a well-formed frame with something other than a
             // packet or a decode error) stays in the workload: the model does not know what the
@@ -249,6 +277,88 @@ pub fn gen_frame(rng: &mut Rng, mode: SizeMode, mix: &FrameMix, stats: &mut GenS
         }
     }
     keepalive(mode)
+}
+
+/// Receive buffer capacity of both connection types (insim::DEFAULT_BUFFER_CAPACITY).
+pub const RX_CAP: usize = 6120;
+
+/// Boundary session: a frame boundary exactly at (or one frame short of / beyond) a multiple of
+/// the receive buffer's capacity, so that spare capacity reaches exactly zero; then a few more
+/// frames. Returns the frames and the stream offset aimed at.
+pub fn boundary_frames(rng: &mut Rng, mode: SizeMode, mix: &FrameMix, frames: &[Vec<u8>], ka_pad: bool, stats: &mut GenStats) -> (Vec<Vec<u8>>, usize) {
+    let cap = RX_CAP * rng.usize(1, 2);
+    let mut total = 0usize;
+    let mut fs: Vec<Vec<u8>> = Vec::new();
+    for f in frames.iter() {
+        if total + f.len() + 4 > cap {
+            break;
+        }
+        total += f.len();
+        fs.push(f.clone());
+    }
+    // pad with 4-byte TINYs (and, uncompressed only, one odd-sized unknown frame) up to cap + d
+    let d: isize = *rng.pick(&[-4isize, 0, 0, 0, 4]);
+    let goal = (cap as isize + d) as usize;
+    if mode == SizeMode::Uncompressed && (goal - total) % 4 != 0 && goal - total >= 5 {
+        let n = 4 + (goal - total) % 4;
+        let mut odd = vec![0xEEu8; n];
+        odd[0] = n as u8;
+        odd[1] = 200;
+        total += n;
+        fs.push(odd);
+    }
+    while total + 4 <= goal {
+        if ka_pad && rng.chance(1, 2) {
+            fs.push(keepalive(mode));
+        } else {
+            fs.push(tiny(mode, rng.byte() | 1, 3));
+        }
+        total += 4;
+    }
+    // and carry on after the boundary
+    for _ in 0..rng.usize(1, 6) {
+        fs.push(gen_frame(rng, mode, mix, stats));
+    }
+    (fs, goal)
+}
+
+/// Quiet link around the boundary: from shortly before `edge` on every frame arrives as its own
+/// segment, and after some of them (always after the one that ends at `edge`) the link says
+/// nothing for a while — more than the 90 s read timeout on the async connection, one socket
+/// read timeout on the blocking one — before it carries on.
+pub fn quiet_edge_reads(rng: &mut Rng, blocking: bool, frames: &[Vec<u8>], edge: usize) -> Vec<ReadEv> {
+    let mut evs = Vec::new();
+    let mut off = 0usize;
+    let from = edge.saturating_sub(4 * rng.usize(1, 40));
+    let mut bulk = 0usize;
+    for f in frames {
+        let end = off + f.len();
+        if end <= from {
+            bulk += f.len();
+        } else {
+            if bulk > 0 {
+                evs.push(ReadEv::Data(bulk));
+                bulk = 0;
+            }
+            evs.push(ReadEv::Data(f.len()));
+            if end == edge || rng.chance(1, 12) {
+                if blocking {
+                    evs.push(ReadEv::Err(if rng.chance(1, 2) { ErrKind::WouldBlock } else { ErrKind::TimedOut }));
+                } else {
+                    evs.push(ReadEv::Stall(rng.range(90_000, 200_000)));
+                    evs.push(ReadEv::Pending);
+                }
+            } else if !blocking && rng.chance(1, 3) {
+                evs.push(ReadEv::Pending);
+            }
+        }
+        off = end;
+    }
+    if bulk > 0 {
+        evs.push(ReadEv::Data(bulk));
+    }
+    evs.push(ReadEv::Eof);
+    evs
 }
 
 fn rand_len(rng: &mut Rng, mode: SizeMode, cap: usize) -> usize {
